@@ -103,6 +103,11 @@ impl BBSplusPoKSignature {
     ///
     /// * `Result<Self, Error>` - A result containing the deserialized `BBSplusPoKSignature` or an error.
     pub fn from_bytes(bytes: &[u8]) -> Result<Self, Error> {
+        // 3 points, e^, r1^, r3^ and the challenge are always present
+        if bytes.len() < 3 * 48 + 4 * 32 {
+            return Err(Error::InvalidProofOfKnowledgeSignature);
+        }
+
         let Abar = parse_g1_projective(&bytes[0..48])
             .map_err(|_| Error::InvalidProofOfKnowledgeSignature)?;
         let Bbar = parse_g1_projective(&bytes[48..96])
@@ -995,6 +1000,11 @@ impl BBSplusZKPoK {
     /// # Output
     /// * A Result containing the `BBSplusZKPoK` or an Error.
     pub fn from_bytes(bytes: &[u8]) -> Result<Self, Error> {
+        // s^ and the challenge are always present
+        if bytes.len() < 2 * 32 {
+            return Err(Error::InvalidProofOfKnowledgeSignature);
+        }
+
         let s_cap = Scalar::from_bytes_be(
             &<[u8; 32]>::try_from(&bytes[0..32])
                 .map_err(|_| Error::InvalidProofOfKnowledgeSignature)?,
